@@ -718,14 +718,20 @@ func instanceLimit() {
 	if firstErr == nil {
 		fmt.Fprintf(out, "  no instance limit reached with %d watchers\n", len(ws))
 	} else {
-		at := inotifyFds()
-		for i := 0; i < 50; i++ { // keep failing: must not leak
+		at, atAll := inotifyFds(), allFds()
+		failed := 0
+		for i := 0; i < 60; i++ { // keep failing: must not leak anything
 			if w, err := fsnotify.NewWatcher(); err == nil {
 				ws = append(ws, w)
+			} else {
+				failed++
 			}
 		}
-		if n := inotifyFds(); n > at+50 {
-			fail("C13", "failed-newwatcher-leaks", "at_limit=%d after=%d", at, n)
+		if n := inotifyFds(); n > at+(60-failed) {
+			fail("C13", "failed-newwatcher-leaks", "inotify descriptors: at_limit=%d after=%d (failed calls: %d)", at, n, failed)
+		}
+		if n := allFds(); failed >= 20 && n >= atAll+failed/2 {
+			fail("C13", "failed-newwatcher-leaks", "descriptors of any kind: %d before, %d after %d failing NewWatcher calls", atAll, n, failed)
 		}
 		fmt.Fprintf(out, "  limit reached after %d watchers: %v\n", len(ws), firstErr)
 	}
@@ -1122,6 +1128,138 @@ func recursiveReact(rng *rand.Rand, rounds int, capEv uint) {
 			if missed >= 2 {
 				return
 			}
+		}
+	}
+}
+
+// allFds: every open descriptor of this process
+func allFds() int {
+	ents, _ := os.ReadDir("/proc/self/fd")
+	return len(ents)
+}
+
+// staleEntryReAdd: the reader lags behind (nobody receives), a watched file is deleted and created again, the path is
+// added again.  Add returned nil and nothing removed it since, so every sequential explanation has the path watched: it is
+// listed, Remove of it succeeds, and a write to the new file is reported.
+func staleEntryReAdd(rng *rand.Rand, capEv uint) {
+	dir, _ := os.MkdirTemp("", "vconc")
+	defer os.RemoveAll(dir)
+	w, err := newW(capEv)
+	if err != nil {
+		return
+	}
+	defer w.Close()
+	scen("stale-entry-readd cap=%d", capEv)
+	other := filepath.Join(dir, "other")
+	os.Mkdir(other, 0o755)
+	f := filepath.Join(dir, "f")
+	os.WriteFile(f, nil, 0o644)
+	w.Add(other)
+	w.Add(f)
+	// park the reader: more events than the buffer holds, nobody receiving
+	for i := 0; i <= int(capEv)+1; i++ {
+		os.WriteFile(filepath.Join(other, fmt.Sprintf("x%d", i)), nil, 0o644)
+	}
+	time.Sleep(20 * time.Millisecond)
+	os.Remove(f)
+	os.WriteFile(f, nil, 0o644)
+	var addErr error
+	if !withTimeout(func() { addErr = w.Add(f) }) {
+		fail("C05", "control-call-blocked", "Add while the reader lags")
+		return
+	}
+	if addErr != nil {
+		fmt.Fprintf(out, "  re-Add returned %v\n", addErr)
+		return
+	}
+	// now the consumer catches up
+	var evs []string
+	drain := func(d time.Duration) {
+		t := time.After(d)
+		for {
+			select {
+			case e := <-w.Events:
+				evs = append(evs, e.Op.String()+" "+filepath.Base(e.Name))
+			case <-w.Errors:
+			case <-t:
+				return
+			}
+		}
+	}
+	drain(150 * time.Millisecond)
+	listed := false
+	for _, p := range w.WatchList() {
+		if p == f {
+			listed = true
+		}
+	}
+	os.WriteFile(f, []byte("x"), 0o644)
+	drain(150 * time.Millisecond)
+	wrote := false
+	for _, e := range evs {
+		if e == "WRITE f" {
+			wrote = true
+		}
+	}
+	rmErr := w.Remove(f)
+	if !listed || !wrote || rmErr != nil {
+		fail("C07", "not-linearizable", "Add(f) returned nil after f was deleted and created again while the reader lagged, nothing removed it, yet: listed=%v write-reported=%v Remove=%v (events %v) — no sequential order of the calls explains this", listed, wrote, rmErr, evs)
+		fail("C09", "re-add-does-not-watch-the-new-file", "listed=%v write-reported=%v Remove=%v", listed, wrote, rmErr)
+		fail("C04", "re-add-does-not-watch-the-new-file", "listed=%v write-reported=%v Remove=%v", listed, wrote, rmErr)
+	}
+}
+
+// closeHammer: several goroutines call Add/Remove/WatchList without pause while the Watcher is closed under them, many
+// times over.  Every call returns; under the race detector this is where an access to shared state outside the mutex shows.
+func closeHammer(rng *rand.Rand, rounds int) {
+	dir, _ := os.MkdirTemp("", "vconc")
+	defer os.RemoveAll(dir)
+	scen("close-hammer rounds=%d", rounds)
+	paths := []string{dir, filepath.Join(dir, "a"), filepath.Join(dir, "b")}
+	os.Mkdir(paths[1], 0o755)
+	os.Mkdir(paths[2], 0o755)
+	for r := 0; r < rounds; r++ {
+		w, err := newW(uint(rng.Intn(2)))
+		if err != nil {
+			return
+		}
+		stop := make(chan struct{})
+		var wg sync.WaitGroup
+		for g := 0; g < 6; g++ {
+			wg.Add(1)
+			go func(g int) {
+				defer wg.Done()
+				for i := 0; ; i++ {
+					select {
+					case <-stop:
+						return
+					default:
+					}
+					switch (g + i) % 3 {
+					case 0:
+						w.Add(paths[i%3])
+					case 1:
+						w.Remove(paths[i%3])
+					default:
+						w.WatchList()
+					}
+				}
+			}(g)
+		}
+		time.Sleep(time.Duration(200+rng.Intn(800)) * time.Microsecond)
+		if !withTimeout(func() { w.Close() }) {
+			fail("C05", "close-blocked", "close-hammer round %d", r)
+			close(stop)
+			return
+		}
+		time.Sleep(100 * time.Microsecond)
+		close(stop)
+		done := make(chan struct{})
+		go func() { wg.Wait(); close(done) }()
+		if !waitConfirmed(done, watchdog) {
+			fail("C05", "control-call-blocked", "close-hammer round %d: an API call never returned after Close", r)
+			fail("C07", "deadlock", "close-hammer round %d", r)
+			return
 		}
 	}
 }
@@ -1627,6 +1765,11 @@ func main() {
 			n = 600
 		}
 		guard("overflow-then-close", func() { overflowThenClose(rng, n) })
+		h := 150
+		if thorough {
+			h = 1500
+		}
+		guard("close-hammer", func() { closeHammer(rng, h) })
 	}
 	rounds := 1 // the families without a size parameter are repeated with fresh random draws in the thorough tier
 	if thorough {
@@ -1693,6 +1836,10 @@ func main() {
 		}
 	}
 	if has("api") {
+		for _, c := range []uint{0, 1, 8} {
+			c := c
+			guard("stale-entry-readd", func() { staleEntryReAdd(rng, c) })
+		}
 		n := 40
 		if thorough {
 			n = 1500
